@@ -73,7 +73,8 @@ try:
     assert fails == 2, "demonstration does not fail (2/2) with the change"
     result["demo_with_change"] = "FAIL 2/2"
     # without the change
-    run("git checkout -- " + " ".join(touched))
+    rc, out = run(f"git apply -R {patch}")
+    assert rc == 0, "cannot revert the change: " + out
     rc, out = run(demo_run, timeout=1200)
     assert rc == 0, "demonstration fails on the clean tree: " + out[-800:]
     result["demo_without_change"] = "PASS"
